@@ -46,6 +46,10 @@ claimed = {
          "rev: every load sequence of <= 3 (4) of 7 header variants of one module name (revision lists {}, {r1}, {r2}, {r2,r1}, {r1,r2}, {r3,r2}, a second text at r1), as modules and as submodules, with repeats: load verdicts, registry keys and the binding of dated/undated imports and includes against a reference, plus equality of the outcome across all orders of each multiset; file: every subset of 6 (8-11) candidate and near-miss file names in each of two search-path directories and of 3 names in the current directory, as real files, x 3 requests, against a reference chooser; split: 9 body items in every partition into main module + 2 submodules x 3 cross-include patterns x 3 load orders, the main module's dump must equal the unsplit module's.",
          "Trusted: the reference registry/chooser; dump. Excluded: bindings of a dated import whose revision is not loaded; partitions needing visibility of the owner's definitions inside a submodule; symlinks/permissions. One known finding class (known_findings.json).",
          "DESIGN.md §3 C13"),
+ "C05": ("stateless exploration of load orders x map-iteration orders on an instrumented build (differential oracle)",
+         "At check time /repo's working tree is copied and every range-over-map (31 sites) is rewritten into a choice point owned by the explorer; the repository's own suite is run on the copy as a conformance check. For each of ~115 conflict scenarios (equal identity names, pairs of deviate kinds, two deviating/augmenting modules, augment chains, two revisions, errors over several files, definitions over submodules, pairwise combinations) every permutation of load order x every map-iteration order with <= 1 (thorough 2) deviations from canonical order is executed (71 k executions quick); all executions of a scenario must give the same dump or the same error list, error lists must be ordered and duplicate-free, and the instrumented goyang command must print identical tree/types output under every single deviation.",
+         "Trusted: the instrumenter (validated by the suite on the copy each run) and verifrt.Range (snapshot semantics are an admissible Go map order). For maps with > 3 keys only rotations, adjacent transpositions and reversal are tried.",
+         "DESIGN.md §3 C05"),
 }
 pending_reason = "check not built yet in this session (see DESIGN.md §12 build order); it will be claimed once its harness exists and is quiet on the unchanged tree"
 not_applicable_reasons = {}
